@@ -488,6 +488,8 @@ func (ex *Explorer) Choose(n int, why string) int {
 		kind = "m"
 	} else if why == "env" {
 		kind = "e"
+	} else if strings.HasPrefix(why, "select: run-queue") {
+		kind = "q" // run-queue discipline (verifSchedChoice): a passing run does not depend on it
 	} else if strings.HasPrefix(why, "select") {
 		kind = "s" // scheduling decision (which ready select case fires): not reproducible by a tape
 	}
